@@ -231,6 +231,10 @@ def load_known() -> list[dict]:
     return json.loads(f.read_text())["findings"] if f.exists() else []
 
 
+# results of the implementation that could not be read back through its public accessors (filled by the tie suites)
+OBSERVE_FAILURES: list = []
+
+
 class Check:
     def __init__(self, pid: str):
         self.pid = pid
@@ -309,6 +313,8 @@ class Check:
 
     def conclude(self, spec_failures: list, disagreements: list, proofs_ok: bool, broken: str, search: str) -> None:
         """the verdict protocol of DESIGN.md section 5"""
+        if OBSERVE_FAILURES:
+            spec_failures = list(OBSERVE_FAILURES) + list(spec_failures)
         self.coverage["disagreements_checked"] = len(disagreements)
         hint = "cd /verif && VERIF_SEED=%d ./check %s --tier %s" % (seed(), self.pid, tier())
         if spec_failures:
